@@ -99,7 +99,7 @@ def gen_cfg(rng, prop, tier, allow_big=True):
     thorough = tier == "thorough"
     if prop == "C20":
         family = "node"
-        menu = rng.choice((("HNode", "HSym"), ("HNode", "HAny", "HSym", "HSymMix"), ("HAny", "HSym")))
+        menu = rng.choice((("HNode", "HSym"), ("HNode", "HAny", "HSym", "HSymMix"), ("HAny", "HSym"), ("HNode", "HSym", "HSymProp")))
     elif prop == "C18":
         family = "node"
         menu = ("HMix",)
